@@ -124,11 +124,17 @@ func writePostings(w *writer, s *postingsBuilder, ngramText *simpleSection,
 	endRunes.end(w)
 }
 
-func (b *ShardBuilder) Write(out io.Writer) error {
+func (b *ShardBuilder) Write(out io.Writer) (err error) {
 	next := b.indexFormatVersion == NextIndexFormatVersion
 
 	buffered := bufio.NewWriterSize(out, 1<<20)
-	defer buffered.Flush()
+	defer func() {
+		// Most shards fit in the buffer, so this is where out is written
+		// to: a failure here (disk full, I/O error) must fail the write.
+		if ferr := buffered.Flush(); err == nil {
+			err = ferr
+		}
+	}()
 
 	w := &writer{w: buffered}
 	toc := indexTOC{}
